@@ -1813,7 +1813,7 @@ static void opstr(int op, char *b, size_t n)
     else if (op == OP_TD_ORDER) snprintf(b, n, "loops dispatch the last ready pump first");
     else if (op == OP_PROVIDE) snprintf(b, n, "sinks answer the requests they kept");
     else if (op == OP_NEED_OUTPUT) snprintf(b, n, "application answers need_output with set_output(S4)");
-    else if (op == OP_SUB1_FLOW) snprintf(b, n, "sub1.set_flow_def(F1 with latency 5000)");
+    else if (op == OP_SUB1_FLOW) snprintf(b, n, "sub1.set_flow_def(F2 with latency 5000)");
     else if (op == OP_RELEASE) snprintf(b, n, "release");
     else snprintf(b, n, "op%d", op);
 }
@@ -2229,9 +2229,9 @@ static int apply_side(struct st *st, struct side *s, int op, bool primary)
     } else if (op == OP_NEED_OUTPUT) {
         s->need_output_react = true;
     } else if (op == OP_SUB1_FLOW) {
-        struct uref *f = px_flow(fx, g_row->in_def ? g_row->in_def : "block.", 1);
+        struct uref *f = px_flow(fx, g_row->in_def ? g_row->in_def : "block.", 2);
         if (g_row->flow_fix)
-            g_row->flow_fix(f, 1);
+            g_row->flow_fix(f, 2);
         ubase_assert(uref_clock_set_latency(f, 5000));
         e = upipe_set_flow_def(s->subs[1], f);
         uref_free(f);
